@@ -55,7 +55,7 @@ RunCalls(s, o) == s.tot[o] - s.rb[o]
 BypassedScope(s, sc) == HasGroup(s, sc, "bypass") /\ s.grpRes[Grp(sc, "bypass")] = "ok"
 \* a check group failed: observed at the plugin in this process lifetime, or durably Failed at the crash
 \* (a group that is run again after the restart is judged by that run)
-GroupFailed(s, b, g) == HasGroup(s, b, g) /\ (s.grpFail[Grp(b, g)] \/ (s.crashed /\ s.cdur[Grp(b, g)].st = FA /\ s.grpRuns[Grp(b, g)] = 0))
+GroupFailed(s, b, g) == HasGroup(s, b, g) /\ (s.grpFail[Grp(b, g)] \/ (s.crashed /\ s.cdur[Grp(b, g)].st = FA))
 BlockChecksFailed(s, b) == \E g \in CheckGroups : GroupFailed(s, b, g)
 PlanGroupFailed(s, g) == GroupFailed(s, 0, g)
 Live(s) == ~s.crashed          \* first process lifetime of the plan (C01..C07 are stated for it)
